@@ -22,7 +22,7 @@ Lemma i64_id x : - 2^63 <= x < 2^63 -> i64 x = x.
 Proof. intros H. unfold i64. rewrite Z.mod_small; lia. Qed.
 
 (** ** Ideal (unbounded-integer) versions of the pacer functions *)
-Definition adj_ideal (bw : Z) : Z := bw / 8 * 5 / 4.
+Definition adj_ideal (bw : Z) : Z := Z.max (bw / 8 * 5 / 4) 1.
 Definition ts_ideal (m bw ns : Z) : Z :=
   let a := adj_ideal bw in
   if a =? 0 then 0 else if ns >? (2^64 - 1) / a then 10 * m else a * ns / 1000000000.
@@ -34,16 +34,17 @@ Definition budget_ideal (p : pacer) (now bw : Z) : Z :=
     let added := if d >? 0 then ts_ideal (p_mds p) bw d else 0 in
     Z.min (mb_ideal (p_mds p) bw) (p_budget p + added).
 
-Lemma adj_bw_ideal bw : bw_ok bw -> adj_bw bw = adj_ideal bw /\ 0 <= adj_ideal bw < 2^62.
+Lemma adj_bw_ideal bw : bw_ok bw -> adj_bw bw = adj_ideal bw /\ 1 <= adj_ideal bw < 2^62.
 Proof.
   intros [H0 H1]. unfold adj_bw, adj_ideal. pconsts.
   assert (0 <= bw / 8 < 2^61) by (split; [apply Z.div_pos; lia|apply Z.div_lt_upper_bound; lia]).
   rewrite u64_id by lia. split; [reflexivity|].
-  split; [apply Z.div_pos; lia|apply Z.div_lt_upper_bound; lia].
+  assert (0 <= bw / 8 * 5 / 4 < 2^62) by (split; [apply Z.div_pos; lia|apply Z.div_lt_upper_bound; lia]).
+  lia.
 Qed.
 
-(** 1.25 x the bandwidth in bytes/s, never more *)
-Lemma adj_ideal_le bw : 0 <= bw -> 4 * adj_ideal bw <= 5 * (bw / 8).
+(** 1.25 x the bandwidth in bytes/s, never more — except for the floor of 1 byte/s *)
+Lemma adj_ideal_le bw : 0 <= bw -> 4 * adj_ideal bw <= Z.max (5 * (bw / 8)) 4.
 Proof.
   intros H. unfold adj_ideal.
   assert (0 <= bw / 8) by (apply Z.div_pos; lia).
@@ -52,7 +53,7 @@ Qed.
 
 Lemma adj_ideal_mono a b : 0 <= a <= b -> adj_ideal a <= adj_ideal b.
 Proof.
-  intros H. unfold adj_ideal. apply Z.div_le_mono; [lia|].
+  intros H. unfold adj_ideal. apply Z.max_le_compat_r. apply Z.div_le_mono; [lia|].
   apply Z.mul_le_mono_nonneg_r; [lia|]. apply Z.div_le_mono; lia.
 Qed.
 
@@ -287,7 +288,7 @@ Theorem pacer_bound_const_rate : forall p t size bw r BW, PInv p -> PT p ->
   mono (pstep p (PSent t size bw)) r ->
   let T := p_last (prun p (PSent t size bw :: r)) in
   sum_auth p (PSent t size bw :: r) <= max_burst p bw + adj_ideal BW * (T - t) / 1000000000 /\
-  4 * adj_ideal BW <= 5 * (BW / 8).
+  4 * adj_ideal BW <= Z.max (5 * (BW / 8)) 4.
 Proof.
   intros p t size bw r BW HP HT Ho Hf Hb Hm T.
   pose proof (pacer_bound p t size bw r HP HT Ho Hf) as H.
@@ -295,25 +296,20 @@ Proof.
   destruct (credit_rate r _ BW A B Hf Hb Hm) as [_ C].
   assert (Hl : p_last (pstep p (PSent t size bw)) = t) by reflexivity.
   rewrite Hl in C. split; [unfold T; cbn [prun fold_left]; fold (prun (pstep p (PSent t size bw)) r); lia|].
-  destruct r as [|o r'].
-  - (* BW unconstrained by an empty tail: the inequality 4*adj <= 5*(BW/8) needs 0 <= BW *)
-    destruct (Z.le_gt_cases 0 BW); [apply adj_ideal_le; auto|].
-    unfold adj_ideal. pose proof (Z.mul_div_le (BW / 8 * 5) 4 ltac:(lia)). lia.
-  - destruct (Z.le_gt_cases 0 BW); [apply adj_ideal_le; auto|].
-    unfold adj_ideal. pose proof (Z.mul_div_le (BW / 8 * 5) 4 ltac:(lia)). lia.
+  unfold adj_ideal. pose proof (Z.mul_div_le (BW / 8 * 5) 4 ltac:(lia)). lia.
 Qed.
 
 (** ** TimeUntilSend *)
 
 (** no wrap in TimeUntilSend, and at the returned time the budget covers one datagram *)
-Theorem time_until_send_sufficient : forall p bw T, PInv p -> bw_ok bw -> 0 < p_last p < 2^62 ->
-  time_until_send p bw = Some T -> T <> 0 ->
+Lemma time_until_send_wait : forall p bw T, PInv p -> bw_ok bw -> 0 < p_last p < 2^62 ->
+  p_budget p < p_mds p -> time_until_send p bw = Some T ->
   p_last p + cc_minPacingDelayNs <= T /\ p_mds p <= budget p T bw.
 Proof.
-  intros p bw T HP Hbw HT Hq HT0. pose proof HP as [Hb Hm].
+  intros p bw T HP Hbw HT HG Hq. pose proof HP as [Hb Hm].
   destruct (adj_bw_ideal bw Hbw) as [Ea Ha].
   unfold time_until_send in Hq. rewrite Ea in Hq. pconsts.
-  destruct (Z.geb_spec (p_budget p) (p_mds p)) as [G|G]; [inversion Hq; lia|].
+  destruct (Z.geb_spec (p_budget p) (p_mds p)) as [G|G]; [lia|].
   rewrite (i64_id (p_mds p - p_budget p)) in Hq by lia.
   rewrite (u64_id (p_mds p - p_budget p)) in Hq by lia.
   rewrite (u64_id (1000000000 * (p_mds p - p_budget p))) in Hq by lia.
@@ -352,6 +348,49 @@ Proof.
   lia.
 Qed.
 
+Theorem time_until_send_sufficient : forall p bw T, PInv p -> bw_ok bw -> 0 < p_last p < 2^62 ->
+  time_until_send p bw = Some T -> T <> 0 ->
+  p_last p + cc_minPacingDelayNs <= T /\ p_mds p <= budget p T bw.
+Proof.
+  intros p bw T HP Hbw HT Hq HT0.
+  apply time_until_send_wait; auto.
+  unfold time_until_send in Hq. destruct (Z.geb_spec (p_budget p) (p_mds p)); [inversion Hq; lia|lia].
+Qed.
+
+(** adjustedBandwidth is never 0, so TimeUntilSend never divides by zero (formerly a panic
+    when the smoothed RTT in seconds exceeded the window in bytes) *)
+Lemma adj_bw_pos bw : 1 <= adj_bw bw.
+Proof. unfold adj_bw. lia. Qed.
+
+Theorem time_until_send_total : forall p bw, time_until_send p bw <> None.
+Proof.
+  intros p bw. unfold time_until_send. destruct (p_budget p >=? p_mds p); [discriminate|].
+  pose proof (adj_bw_pos bw). destruct (Z.eqb_spec (adj_bw bw) 0); [lia|discriminate].
+Qed.
+
+(** No pacing livelock: whenever the gate is closed at [now] (Budget now < one datagram, what
+    HasPacingBudget reports when the pacer's datagram size is the sender's), TimeUntilSend
+    names a real time in the future of the last send — not "immediately" — at which the
+    budget covers one datagram. *)
+Theorem gate_closed_then_wait : forall p now bw, PInv p -> bw_ok bw -> 0 <= p_last p < 2^62 ->
+  - 2^63 <= now - p_last p < 2^63 -> budget p now bw < p_mds p ->
+  exists T, time_until_send p bw = Some T /\ T <> 0 /\ p_last p + cc_minPacingDelayNs <= T /\ p_mds p <= budget p T bw.
+Proof.
+  intros p now bw HP Hbw HT Hd Hc. pose proof HP as [Hb Hm].
+  destruct (max_burst_ideal p bw HP Hbw) as [_ [Mlo _]].
+  destruct (adj_bw_ideal bw Hbw) as [_ Ha].
+  assert (Hl : p_last p <> 0 /\ p_budget p < p_mds p).
+  { rewrite budget_no_overflow in Hc by auto. unfold budget_ideal in Hc.
+    destruct (Z.eqb_spec (p_last p) 0); [lia|]. split; [auto|].
+    destruct (Z.gtb_spec (now - p_last p) 0).
+    - pose proof (ts_ideal_bounds (p_mds p) bw (now - p_last p) Hm ltac:(lia) ltac:(lia)) as [[T0 _] _]. lia.
+    - lia. }
+  destruct Hl as [Hl Hg].
+  destruct (time_until_send p bw) as [T|] eqn:Hq; [|exfalso; exact (time_until_send_total p bw Hq)].
+  destruct (time_until_send_wait p bw T HP Hbw ltac:(lia) Hg Hq) as [W1 W2].
+  exists T. repeat split; auto. unfold cc_minPacingDelayNs in *. lia.
+Qed.
+
 (** ** BandwidthFromDelta / the sender's bandwidth estimate *)
 
 (** For windows below 2^31 bytes and a positive smoothed RTT nothing wraps, and the pacing
@@ -359,7 +398,7 @@ Qed.
 Theorem bandwidth_no_overflow : forall bytes delta, 0 <= bytes < 2^31 -> 0 < delta < 2^63 ->
   bfd bytes delta = Some (bytes * 1000000000 / delta * 8) /\
   bw_ok (bytes * 1000000000 / delta * 8) /\
-  adj_bw (bytes * 1000000000 / delta * 8) = bytes * 1000000000 / delta * 5 / 4.
+  adj_bw (bytes * 1000000000 / delta * 8) = Z.max (bytes * 1000000000 / delta * 5 / 4) 1.
 Proof.
   intros bytes delta Hb Hd. unfold bfd. pconsts.
   rewrite (u64_id delta) by lia.
@@ -430,3 +469,55 @@ Proof.
   cbv zeta. split; [|split; vm_compute; reflexivity].
   repeat (constructor; [cbv; repeat split; discriminate|]). constructor.
 Qed.
+
+(** ** The pacer's datagram size is the sender's, from construction on *)
+
+Lemma ack_run_mds k : forall s pn prior, mds (ack_run k s pn prior) = mds s.
+Proof.
+  induction k as [|k IH]; intros s pn prior; cbn [ack_run]; [reflexivity|].
+  rewrite IH. unfold on_acked, maybe_increase, set_window, set_hs, upd.
+  repeat match goal with |- context[if ?c then _ else _] => destruct c end; reflexivity.
+Qed.
+
+Lemma step_synced s o : p_mds (pc s) = mds s -> p_mds (pc (step s o)) = mds (step s o).
+Proof.
+  intros H. destruct o; unfold step, step_full; cbn [fst]; try exact H.
+  - unfold on_sent. destruct retrans; exact H.
+  - unfold on_acked, maybe_increase, set_window, set_hs, upd.
+    repeat match goal with |- context[if ?c then _ else _] => destruct c end; exact H.
+  - unfold on_lost, upd. repeat match goal with |- context[if ?c then _ else _] => destruct c end; exact H.
+  - unfold on_rto. destruct b; exact H.
+  - unfold set_mds. destruct (m <? mds s); cbn [fst]; [exact H|reflexivity].
+  - unfold maybe_exit_ss, set_hs, upd. destruct (in_slow_start s); [|exact H].
+    destruct (hs_should_exit _ _ _ _) as [h' ex]. destruct ex; exact H.
+  - rewrite ack_run_pc, ack_run_mds. exact H.
+  - destruct (time_until_send (pc s) (bw_est s srtt)); exact H.
+Qed.
+
+(** For every history from (new)CubicSender: pacer.maxDatagramSize = sender.maxDatagramSize, so
+    HasPacingBudget (Budget >= sender size) and TimeUntilSend (pacer size) speak about the same
+    datagram (formerly 1280 vs. the configured initial size: finding cubic/pacing-livelock). *)
+Theorem pacer_synced : forall m r icw imax srtt0 ops,
+  let s' := run (new_sender_w m r icw imax srtt0) ops in p_mds (pc s') = mds s'.
+Proof.
+  intros m r icw imax srtt0 ops.
+  assert (H : forall ops s, p_mds (pc s) = mds s -> p_mds (pc (run s ops)) = mds (run s ops)).
+  { induction ops0 as [|o ops0 IH]; intros s Hs; cbn [run fold_left]; [exact Hs|].
+    apply IH. apply step_synced. exact Hs. }
+  apply H. reflexivity.
+Qed.
+
+(** Regression for cubic/pacing-livelock (the history the harness replays as its fixed case 2):
+    sender with 1350-byte datagrams; eight full packets and one of 700 bytes at the same instant.
+    Before the repair the pacer (datagram size 1280, burst 12800) was left with 1300 bytes:
+    HasPacingBudget false (1300 < 1350) but TimeUntilSend = 0 (1300 >= 1280) — the run loop spins.
+    Now the budget is 2000 (gate open); one more packet leaves 650: gate closed and TimeUntilSend
+    names a real time. *)
+Example pacing_livelock_regression :
+  let s8 := run (new_sender 1350 true 100000000)
+               (map (fun i => Sent 1000 i 1350 true 100000000) [0;1;2;3;4;5;6;7] ++ [Sent 1000 8 700 true 100000000]) in
+  p_mds (pc s8) = 1350 /\ p_budget (pc s8) = 2000 /\ step_full s8 (QBudget 1000 100000000) = (s8, 1, false) /\
+  let s9 := step s8 (Sent 1000 9 1350 true 100000000) in
+  p_budget (pc s9) = 650 /\ step_full s9 (QBudget 1000 100000000) = (s9, 0, false) /\
+  exists T, step_full s9 (QTimeUntil 100000000) = (s9, T, false) /\ 1001000 <= T.
+Proof. vm_compute. repeat split; try reflexivity. eexists. split; [reflexivity|discriminate]. Qed.
